@@ -35,6 +35,14 @@ class C20(Prop):
         return [{"module": "Cli.tla", "cfg": "MC_Cli.cfg", "what": "all orders of <=4 option groups + content path; three routes"},
                 {"module": "Cli.tla", "cfg": "MC_Cli_deep.cfg", "tier": "thorough", "timeout": 3000,
                  "what": "all orders of <=6 option groups: 1 268 211 (subset, order) pairs"},
+                {"module": "CliArgv.tla", "cfg": "MC_CliArgv.cfg",
+                 "what": "token level: argparse (greedy list flags, --flag=value, scalar flags, positional) + MetaFile's recovery "
+                         "for every order and spelling of <= 3 option groups with the content path in every gap: 16 345 command lines"},
+                {"module": "CliArgv.tla", "cfg": "MC_CliArgv_live.cfg", "what": "liveness: the token walk ends"},
+                {"module": "CliArgv.tla", "cfg": "MC_CliArgv_untrimmed.cfg", "expect": "fail", "what": "seed C20b: recovered path left in its list"},
+                {"module": "CliArgv.tla", "cfg": "MC_CliArgv_first.cfg", "expect": "fail", "what": "recovery looks at the first element"},
+                {"module": "CliArgv.tla", "cfg": "MC_CliArgv_norecoverh.cfg", "expect": "fail", "what": "no recovery from httpseeds"},
+                {"module": "CliArgv.tla", "cfg": "MC_CliArgv_valmangle.cfg", "expect": "fail", "what": "seed R14-C20: the value of --flag=value rewritten"},
                 {"module": "Cli.tla", "cfg": "MC_Cli_code.cfg", "expect": "fail",
                  "what": "config keys web-seed / out mapped to non-keywords (pinned commit)"}]
 
@@ -99,12 +107,52 @@ class C20(Prop):
                                 announce_flag=("-a", "--announce", "--tracker")[k % 3],
                                 magnet_flag=k % 4 == 1, pre=([], ["-q"], ["-v"])[k % 3],
                                 argform="eq" if (k + g) % 3 == 2 else "plain"))
+        return out + self.argv_cases(tier, rng)
+
+    def argv_cases(self, tier, rng):
+        """CliArgv.tla's universe of token sequences (every order and spelling of <= 3 option groups, the content
+        path in every gap), emitted by TLC, replayed into the real front end."""
+        from . import core, tlaval
+        from .core import Machinery
+        r = core.run_tlc("CliArgv.tla", "Sim_CliArgv.cfg", workers=1, timeout=900)
+        if r.error or r.violation:
+            raise Machinery("CliArgv emission failed: %s" % (r.error or r.violation))
+        univ = [w for _, w in tlaval.find_tagged(r.out, "ARGV")]
+        if len(univ) < 1000:
+            raise Machinery("CliArgv emission produced %d command lines" % len(univ))
+        univ = [w for w in univ if not w["ambiguous"]]
+        pick = univ if tier == "thorough" else rng.sample(univ, 400)
+        out = []
+        for n, w in enumerate(pick):
+            toks = [list(t) for t in w["argv"]]
+            want = {"A": [], "W": [], "H": []}
+            cur = None
+            for t in toks:
+                if t[0] == "flag":
+                    cur = t[1] if t[1] in want else None
+                elif t[0] == "eq":
+                    cur = None
+                    if t[1] in want:
+                        want[t[1]] = [t[2]]
+                elif cur and t[1] != "PATH":
+                    want[cur].append(t[1])
+            tree = mk_tree("D2", (B + 5, 2 * B)) if n % 3 else mk_tree("S1", (3 * B + 1,))
+            out.append({"op": "argv", "tokens": toks, "want_lists": want, "tree": tree, "group": "argv-%d" % n,
+                        "route": "argv", "opts": {}, "clauses": ["C20.fields", "M20.argv"]})
+        self._argv = {"universe": len(univ), "replayed": len(out), "complete": tier == "thorough", "cmd": r.cmd}
         return out
+
+    def extra_coverage(self, tier, cases, recs):
+        return {"argv_universe_replay": getattr(self, "_argv", None)}
 
     def corruptions(self, recs):
         import copy
         from .mutate import first
         out = []
+        for r in first(recs, lambda r: r.get("op") == "argv" and r["ns"]["captured"] and r["ns"]["lists"]["W"]):
+            m = copy.deepcopy(r)
+            m["ns"]["lists"]["W"] = m["ns"]["lists"]["W"][:-1]
+            out.append((m, "M20.argv"))
         for r in first(recs, lambda r: r["status"] == "ok" and r["opts"]["A"]):
             m = copy.deepcopy(r)
             m["m"]["announce"] = ["-"]
@@ -116,6 +164,8 @@ class C20(Prop):
         return out
 
     def nontrivial(self, case):
+        if case.get("op") == "argv":
+            return ("argv", str(case["tokens"]))
         if case["route"] == "cli" and case["shape"] and case["shape"][0] == "PATH":
             return None
         return (case["group"], case["route"], tuple(case.get("shape", [])), case.get("announce_key"), case.get("argform"),
@@ -126,6 +176,8 @@ class C20(Prop):
         return "%s/%s" % (clause, (case or {}).get("route", "?"))
 
     def sample(self, case, rec):
+        if case.get("op") == "argv":
+            return {"argv_tokens": case["tokens"], "namespace": rec.get("ns") if rec else None, "status": rec.get("status") if rec else None}
         return {"opts": [f for f, on in case["opts"].items() if on], "route": case["route"], "shape": case.get("shape"),
                 "status": rec.get("status") if rec else None}
 
